@@ -29,7 +29,8 @@ import vcheck
 LEVEL = "proof"
 
 MODEL_FILES = ["Diag/SwizzleModel.v", "Diag/BalanceModel.v", "Diag/LeafModel.v", "Diag/SwizzleProofs.v",
-               "Diag/BalanceProofs.v", "Diag/LeafProofs.v", "Diag/Reviewed.v", "Diag/DiagInst.v"]
+               "Diag/BalanceProofs.v", "Diag/LeafProofs.v", "Diag/Reviewed.v", "Diag/DiagInst.v",
+               "Parse/Ast.v", "Parse/TkFacts.v", "Parse/ParserModel.v", "Parse/ParserProofs.v", "Parse/ParserPrint.v", "Parse/ParserDiag.v"]
 
 TOKCODE = {"(": 1, ")": 2, "[": 3, "]": 4, "{": 5, "}": 6}
 
@@ -625,6 +626,12 @@ def run(ctx):
         with open(os.environ["C11_DUMP_FINDINGS"], "w") as f:
             for d in DUMP:
                 f.write(json.dumps(d) + "\n")
+    # parser model (coq/Parse): the witnesses of the `_refuted` theorems of Props/C11.v replayed on naga
+    import parsecorr
+    ctx.cov["parser_refuted_witnesses"] = parsecorr.replay_refuted(ctx, tools)
+    ctx.cov["trusted_base"].append("parser theorems (c11_missing_*_partial, c11_*_refuted) are about coq/Parse/ParserModel.v, a transliteration of "
+                                   "parser.go tied to the implementation by the correspondence leg of checks/c19.py (lib/parsecorr.py)")
+    n_eval += len(ctx.cov["parser_refuted_witnesses"])
     ctx.cov["evaluations"] = n_eval
     ctx.cov["distinct_nontrivial"] = len(set(hashlib.sha1(c.src.encode("utf-8", "surrogateescape")).digest() for c in allc)) + \
         (ctx.cov.get("leaf_correspondence", {}).get("swizzle", {}).get("compared", 0))
